@@ -245,6 +245,32 @@ def main():
             for (src, a, vt) in variants:
                 pr = prog(pid(), src, a, "s", "", "", "window-family" + vt)
                 winj.append(pr + (bl,))
+    # group-repeat family: P ( X q1 Y | Y X q1 ) q2 Q - a quantified group whose first / last element is itself quantified: the jump back of the outer
+    # repeat has to land on the first instruction of the inner one (its split / repeat_start), forwards and - for atoms after the group - backwards
+    grpj = []
+    Q1 = [("?", 0, 1), ("*", 0, -1), ("+", 1, -1), ("{0,1}", 0, 1), ("{1,2}", 1, 2), ("{2,3}", 2, 3), ("{0,2}", 0, 2), ("{2}", 2, 2), ("{1,}", 1, -1)]
+    Q2 = [("+", 1, -1), ("*", 0, -1), ("{1,3}", 1, 3), ("{2}", 2, 2), ("{2,}", 2, -1), ("?", 0, 1)]
+    A_, B_ = "B 61 ff 0", "B 62 ff 0"
+    for P in ("", "x"):
+        for Qs in ("", "c"):
+            if not P and not Qs: continue
+            for (q1, lo1, hi1) in (Q1 if not quick else Q1[:7]):
+                for (q2, lo2, hi2) in (Q2 if not quick else Q2[:4]):
+                    for order in ("XY", "YX", "X"):
+                        for lazy in (False, True):
+                            z = "?" if lazy else ""
+                            inner_src = {"XY": "a" + q1 + z + "b", "YX": "ba" + q1 + z, "X": "a" + q1 + z}[order]
+                            ra = "R %d %d %s" % (lo1, hi1, A_)
+                            inner_ast = {"XY": ". " + ra + " " + B_, "YX": ". " + B_ + " " + ra, "X": ra}[order]
+                            src = P + "(" + inner_src + ")" + q2 + z + Qs
+                            parts = (["B 78 ff 0"] if P else []) + ["R %d %d %s" % (lo2, hi2, inner_ast)] + (["B 63 ff 0"] if Qs else [])
+                            astp = parts[0] if len(parts) == 1 else " ".join(". " + p_ for p_ in parts[:-1]) + " " + parts[-1]
+                            tag = "family-group-repeat" + (":lazy" if lazy else "")
+                            grpj.append(prog(pid(), src, astp, "s", "", "", tag))
+                            if not lazy:
+                                grpj.append(prog(pid(), src, astp, "m", "", "", tag))
+    words = [bytes(t) for n in range(0, (7 if quick else 8) + 1) for t in itertools.product(b"ab", repeat=n)]
+    sp_grp = ["B list " + " ".join((pre + w + post).hex() for w in words for (pre, post) in ((b"x", b"c"), (b"x", b""), (b"", b"c"), (b"ax", b"cb")))]
     lb = 5 if quick else 6
     sp_main = ["B all %s %d" % (ALPHA.hex(), lb)]
     sp4 = ["B all %s %d" % (ALPHA.hex(), 4 if quick else 5)]
@@ -253,6 +279,7 @@ def main():
     chunks = [("plain", sp_main, c) for c in yv.chunked(jobs, 100)] + [("plain", sp4, c) for c in yv.chunked(jobs4, 300)]
     chunks += [("plain", sp_fam, c) for c in yv.chunked(fam, 100)] + [("plain", sp_wide, c) for c in yv.chunked(widej, 100)]
     chunks += [("plain", [], c) for c in yv.chunked(winj, 100)]
+    chunks += [("plain", sp_grp, c) for c in yv.chunked(grpj, 60)]
     if quick:
         chunks += [("asan", ["B all %s 4" % ALPHA.hex()], c) for c in yv.chunked(jobs[::5], 200)]
     for v in ("plain", "asan"): yv.space_exe(v)
@@ -281,7 +308,7 @@ def main():
     ck.cov["programs_hitting_fiber_limit"] = limited
     ck.cov["rejected_by_compiler"] = rejected
     ck.cov["rule"] = ("programs = all regex ASTs with <=3 nodes (x greedy/lazy x /i /s x nocase, fullword, wide, ascii wide, and as `matches` operand), all ASTs "
-                      "with 4 nodes (greedy%s), the families P(X){n,m}Q and P X{n,m} Q Y{k,l} R, the window family (runs of 5..7 (8) one-character nodes {literal, dot, class}, plain / grouped / as alternation branch / counted, each with its own instance and near-miss buffers); inputs = every buffer over {a,b,A,\\n,space,1} with length <= %d (<=%d for 4 nodes), "
+                      "with 4 nodes (greedy%s), the families P(X){n,m}Q, P X{n,m} Q Y{k,l} R and P(X q1 Y)q2 Q (quantified group starting / ending with a quantified element), the window family (runs of 5..7 (8) one-character nodes {literal, dot, class}, plain / grouped / as alternation branch / counted, each with its own instance and near-miss buffers); inputs = every buffer over {a,b,A,\\n,space,1} with length <= %d (<=%d for 4 nodes), "
                       "{a,b}^<=10 for the family, 2-byte units for wide; non-trivial = (program, buffer) pairs with an expected match") % (
                           "" if quick else " and lazy; 5 nodes over a reduced leaf set", lb, 4 if quick else 5)
     ck.assumptions += ["a lazy expression that can also match the empty string may report length 0 at an offset that has a non-empty match",
